@@ -100,6 +100,12 @@ MCProfiles ==
 
 MCVoaGrid == {cdB(50), cdB(150)}
 
+\* designed lines whose life is followed further (used, designed again): the profiles with an automatic output VOA and
+\* the one-span profiles, in the configurations of one slope and of the two ranges whose bounds bind
+MCFollowed(c, o) == /\ Rich /\ (o.rich = 1 \/ (o.rich = 0 /\ Len(o.amps) = 2))
+                    /\ c.slope = 300 /\ c.step \in {cdB(50)}
+MCNoFollow(c, o) == FALSE
+
 \* on the replayed grid the rule never ties, so the expectation emitted for B2 is unique
 NoTieOnGrid == \A k \in 1..Len(oms.amps) :
                   (oms.rich \in {0, 1, 5, 6, 7} /\ RuleApplies(cfg, oms.amps[k])) =>
@@ -112,6 +118,6 @@ Spread == cfg.mode + cfg.slope \div 100 + cfg.lo \div 1000000 + oms.t0 \div 5000
           + SumSeq([k \in 1..Len(oms.amps) |-> oms.amps[k].L \div 10000 + 7 * k * oms.amps[k].kind])
 Selected == LET st == IF oms.rich # 0 THEN 3 * EmitStride1 ELSE IF Len(oms.amps) = 2 THEN EmitStride1 ELSE EmitStride2
             IN Spread % st = 0
-Emit == i < Len(oms.amps) \/ oms.rich \notin {0, 1, 5, 6, 7} \/ ~Selected
+Emit == i < Len(oms.amps) \/ oms.rich \notin {0, 1, 5, 6, 7} \/ ~Selected \/ used \/ Again     \* once per design
           \/ PrintT("@@" \o ToJson([cfg |-> cfg, oms |-> oms, out |-> out]))
 ==============================================================================
